@@ -235,6 +235,37 @@ def run_tlc(module, cfg, workers=None, timeout=600, simulate=None, depth=None, s
         shutil.rmtree(d, ignore_errors=True)
 
 
+def run_apalache(module, cinit, init, inv, length, timeout=300):
+    """Run `apalache-mc check` on spec/<module>.tla in a scratch copy of /verif/spec. Returns
+    {"outcome": "NoError" | "Error" | "unavailable", "wall_s": ..} -- "Error" = the invariant does not hold
+    (a counterexample was found); "unavailable" = the tool could not be run / did not finish (never a verdict)."""
+    d = scratch("apa-")
+    t0 = time.time()
+    try:
+        for f in os.listdir(SPEC):
+            if f.endswith(".tla"):
+                shutil.copy(os.path.join(SPEC, f), d)
+        cmd = ["timeout", str(timeout), "apalache-mc", "check", "--out-dir=" + os.path.join(d, "out"),
+               "--cinit=" + cinit, "--init=" + init, "--inv=" + inv, "--length=%d" % length, module + ".tla"]
+        env = dict(os.environ)
+        env.pop("JAVA_TOOL_OPTIONS", None)
+        env["HOME"] = d  # apalache writes ~/.tlaplus / ~/.apalache.cfg lookups: keep them inside the scratch copy
+        try:
+            p = subprocess.run(cmd, cwd=d, env=env, capture_output=True, text=True, errors="replace")
+        except OSError as e:
+            return {"outcome": "unavailable", "detail": str(e)[:200], "wall_s": round(time.time() - t0, 1)}
+        out = p.stdout + p.stderr
+        if "The outcome is: NoError" in out and p.returncode == 0:
+            oc = "NoError"
+        elif p.returncode == 12 and "The outcome is: Error" in out:
+            oc = "Error"
+        else:
+            return {"outcome": "unavailable", "detail": "rc=%d %s" % (p.returncode, out[-300:]), "wall_s": round(time.time() - t0, 1)}
+        return {"outcome": oc, "wall_s": round(time.time() - t0, 1), "cmd": " ".join(cmd[2:4] + cmd[5:])}
+    finally:
+        shutil.rmtree(d, ignore_errors=True)
+
+
 def _parse_tlc(lines, res):
     in_err = False
     err = []
